@@ -84,6 +84,29 @@ CLAIMED['C05'] = dict(
          'extrema, is checked by the oracle on real signals x 3 methods x 3 modes x parabolic on/off (tolerance 1e-9), not proved.',
     note=NOTE + ' np.pad and argrelextrema are modelled concretely and validated exhaustively; spline/PCHIP evaluation is an oracle.')
 
+CLAIMED['C04'] = dict(
+    technique='Coq proof over an abstract-oracle model of the extraction loop (any signal type, any envelope / stopping oracle, any limit) + exhaustive scripted correspondence of the real get_next_imf control flow + bit-exact toy-envelope runs + trace conformance on real numerics',
+    text='Theorems (Prop_C04.v) prove for EVERY signal type, envelope oracle, stopping oracle, step operator and iteration limit that the result of '
+         'get_next_imf is exactly one of: the FIRST iterate x_k (x_0 = X, x_{k+1} = x_k - step*mean envelope) at which the rule fires with its full '
+         'envelope mean removed (the n-th for a fixed count n), the first iterate left without envelopes (flagged final iff it is the unmodified '
+         'input), or the convergence error after max_iters+1 iterates none of which met the rule (sd/rilling only); that the loop never exhausts '
+         'max_iters+2 steps (termination), never returns an unconverged iterate, and that the energy option can only clear the flag. The sd and '
+         'Rilling formulas are characterised exactly as rational inequalities with numpy\'s 0/0 and x/0 behaviour. Correspondence: every '
+         '(envelope availability x rule decision) script to depth 4/5 x 3 methods x limits through the real function; random integer signals with '
+         'integer toy envelopes bit for bit; the real sd_stop/rilling_stop on integer vectors; recorded decisions of real runs replayed through '
+         'the model. Oracle: the iterate sequence recomputed from the public stage functions on real signals (guard band 1e-6).',
+    note=NOTE + ' Envelope interpolation is an oracle of the theorems (its own properties are C05); fixed with max_iters = 0 is outside the documented range and excluded by the guard.')
+CLAIMED['C01'] = dict(
+    technique='Coq proof over an abstract model of the outer sift loop (any abelian-group-like signal type, any extraction step) composed with the extraction-loop theorems + bit-exact toy-envelope correspondence of the real sift + completeness oracle on real signals',
+    text='Theorems (Prop_C01.v) prove for every signal type with the two group laws, every extraction step and every threshold test that each layer '
+         'is extracted from the input minus the sum of the previous layers, that the loop ends only for the documented reasons (cap, threshold, '
+         'cleared flag), and that when it ends because the extraction cleared its flag the components sum to the input exactly and the last one is '
+         'the residual itself; the extraction contract (flag cleared => unmodified input without envelopes, or the energy threshold fired) is '
+         'proved of get_next_imf as repaired and REFUTED with a witness for the code before the repair; the integer-vector instance meets all '
+         'hypotheses, and no envelope means fewer than two maxima or fewer than two minima (from C05). Exact arithmetic: "to within rounding" is '
+         'the oracle\'s tolerance (1e-9) on real signals x all stop rules x steps x interpolation methods x pad widths.',
+    note=NOTE + ' Termination of the OUTER loop is not claimed (it is not part of the property); runs that time out are discarded and counted.')
+
 _PENDING = 'check under construction in this session (model/theorem/correspondence not all in place yet); not claimed until they are'
 NOT_CLAIMED = {('C%02d' % i): _PENDING for i in range(1, 21)}
 for _p in CLAIMED:
